@@ -53,6 +53,8 @@ def enc(v):
 
 
 def build(spec):
+    """one distribution from a spec, through the public entry point and input representation the spec
+    names (defaults: plain dict / list / float data)"""
     import numpy as np
     from msdm.core.distributions import DictDistribution, UniformDistribution, \
         DeterministicDistribution, SoftmaxDistribution
@@ -61,25 +63,67 @@ def build(spec):
     k = spec["kind"]
     ev = [dec(e) for e in spec["events"]]
     ws = [float("-inf") if w == "-inf" else fl(w) for w in spec.get("weights", [])]
+    if spec.get("num") == "int":
+        ws = [int(Fraction(w)) for w in spec["weights"]]
+    rep = spec.get("rep")
     if k == "dict":
+        if rep == "pairs_list":
+            return DictDistribution(list(zip(ev, ws)))
+        if rep == "kwargs":
+            return DictDistribution(**dict(zip(ev, ws)))
+        if rep == "copy":
+            return DictDistribution(DictDistribution(dict(zip(ev, ws))))
         return DictDistribution(dict(zip(ev, ws)))      # later duplicates overwrite
     if k == "pairs":
+        if rep == "generator":
+            return DictDistribution.from_pairs((e, w) for e, w in zip(ev, ws))
+        if rep == "tuple":
+            return DictDistribution.from_pairs(tuple(zip(ev, ws)))
         return DictDistribution.from_pairs(list(zip(ev, ws)))
     if k == "uniform":
         seq = spec.get("seq", "list")
-        return UniformDistribution(tuple(ev) if seq == "tuple" else list(ev))
+        sup = {"tuple": lambda: tuple(ev), "range": lambda: range(len(ev)),
+               "str": lambda: "".join(ev)}.get(seq, lambda: list(ev))()
+        if spec.get("classmethod"):
+            return DictDistribution.uniform(sup)
+        if spec.get("check_unique") is False:
+            return UniformDistribution(sup, check_unique=False)
+        return UniformDistribution(sup)
     if k == "det":
+        if spec.get("classmethod"):
+            return DictDistribution.deterministic(ev[0])
         return DeterministicDistribution(ev[0])
     if k == "softmax":
+        if rep == "pairs_list":
+            return SoftmaxDistribution(list(zip(ev, ws)))
+        if rep == "kwargs":
+            return SoftmaxDistribution(**dict(zip(ev, ws)))
         return SoftmaxDistribution(dict(zip(ev, ws)))
     if k == "table":
-        if spec.get("via_row"):
-            data = np.array([ws, [0.0] * len(ws)], dtype=float)
-            pt = ProbabilityTable(data=data, table_index=TableIndex(
-                field_names=["s", "e"], field_domains=[["r0", "r1"], ev]))
+        dom = tuple(ev) if spec.get("dom") == "tuple" else list(ev)
+        dt = int if spec.get("num") == "int" else float
+        via = spec.get("via_row")
+        via = "2d" if via is True else via
+        zero = [0] * len(ws)
+        if via == "2d":
+            pt = ProbabilityTable(data=np.array([ws, zero], dtype=dt), table_index=TableIndex(
+                field_names=["s", "e"], field_domains=[["r0", "r1"], dom]))
+            if spec.get("touch"):       # use the base table (and its cached views) before deriving the row
+                list(pt.items()); pt["r1"]; pt.table_index.field_names; len(pt)
+                first = pt["r0"]
+                list(first.items())
             return pt["r0"]
-        return TableDistribution(data=np.array(ws, dtype=float),
-                                 table_index=TableIndex(field_names=["e"], field_domains=[ev]))
+        if via in ("3d", "3d_tuple"):
+            pt = ProbabilityTable(data=np.array([[zero, ws], [zero, zero]], dtype=dt), table_index=TableIndex(
+                field_names=["s", "c", "e"], field_domains=[["r0", "r1"], [0, ""], dom]))
+            if spec.get("touch"):
+                list(pt.items()); pt["r1"]; list(pt["r0"].items())
+            return pt[("r0", "")] if via == "3d_tuple" else pt["r0"][""]
+        t = TableDistribution(data=np.array(ws, dtype=dt),
+                              table_index=TableIndex(field_names=["e"], field_domains=[dom]))
+        if spec.get("touch"):
+            list(t.items()); len(t); t.table_index.field_domains
+        return t
     raise ValueError("unknown kind " + k)
 
 
@@ -129,19 +173,41 @@ class Recording(random.Random):
         return u
 
     def choice(self, seq):
+        if not len(seq):
+            raise IndexError('Cannot choose from an empty sequence')
         i = random.Random._randbelow_with_getrandbits(self, len(seq))
         self.log.append(["i", i])
         return seq[i]
 
 
 def one(case, pl):
+    import numpy as np
+    from msdm.core.distributions.distributions import FiniteDistribution
+    from msdm.core.distributions import UniformDistribution
     universe = [dec(e) for e in case["universe"]]
+    if case.get("shadow"):
+        # another object of the same class over the same events with other numbers, built and USED first
+        def touch():
+            sd = build(case["shadow"])
+            list(sd.items()); [sd.prob(e) for e in sd.support]; len(sd); sd.is_normalized()
+            sd.marginalize(lambda e: 0); sd.normalize()
+        guarded(touch)
     d1, d2 = build(case["d1"]), build(case["d2"])
     F = {dec(k): dec(v) for k, v in case["proj"]}
-    W = {dec(k): (bool(v[1]) if v[0] == "bool" else fl(v[1])) for k, v in case["like"]}
+    def wv(v):
+        if v[0] == "bool":
+            return bool(v[1])
+        if v[0] == "int":
+            return int(v[1])
+        if v[0] == "np":
+            return np.float64(fl(v[1]))
+        return fl(v[1])
+    W = {dec(k): wv(v) for k, v in case["like"]}
     G = {dec(k): fl(v) for k, v in case["real"]}
     KERN = {dec(k): v for k, v in case["kern"]}
     a, b = fl(case["a"]), fl(case["b"])
+    if case.get("ab_int"):
+        a, b = int(a), int(b)
     res = {}
     for name, d in (("d1", d1), ("d2", d2)):
         r = {"items": items_of(d), "support": [enc(e) for e in d.support], "len": len(d),
@@ -160,9 +226,41 @@ def one(case, pl):
     res["mix"] = guarded(lambda: items_of(d1 * a | d2 * b))
     res["rmul"] = guarded(lambda: items_of(a * d1))
     res["and"] = guarded(lambda: items_of(d1 & d2))
-    res["expectation"] = guarded(lambda: fj(d1.expectation(lambda e: G[e])))
+    if case.get("default_real"):
+        res["expectation"] = guarded(lambda: fj(d1.expectation()))      # real_function defaults to the identity
+    else:
+        res["expectation"] = guarded(lambda: fj(d1.expectation(lambda e: G[e])))
     res["normalize"] = guarded(lambda: items_of(d1.normalize()))
     res["kern_items"] = [[k, guarded(lambda: items_of(build(v)))] for k, v in case["kern"]]
+    res["isnorm_custom"] = guarded(lambda: bool(d1.is_normalized(rtol=0.0, atol=2.0 ** -10)))
+    res["compose_mix_normalize"] = guarded(lambda: items_of((d1 * a | d2 * b).normalize()))
+    res["compose_condition_marginalize"] = guarded(
+        lambda: items_of(d1.condition(lambda e: W[e]).marginalize(lambda e: F[e])))
+    # the same object asked again gives the same answer, and no operation changed it
+    res["repeat_ok"] = guarded(lambda: items_of(d1.marginalize(lambda e: F[e])) == res["marginalize"]
+                               and items_of(d1.joint(d2)) == res["joint"])
+    res["items_after"] = {"d1": guarded(lambda: items_of(d1)), "d2": guarded(lambda: items_of(d2))}
+    # the generic FiniteDistribution.sample on every kind (list / tuple / dict-keys / generator supports), k = 1 and k = 3
+    gd = []
+    for u in case.get("gdraws", []):
+        rng = Scripted([["u", fl(u)]] * 2)
+        def gg():
+            e = FiniteDistribution.sample(d1, rng=rng)
+            return {"event": enc(e), "used": rng.used}
+        gd.append(guarded(gg))
+    res["gdraws"] = gd
+    def kd():
+        rng = Scripted([["u", fl(u)] for u in case.get("gdraws", [])])
+        r = FiniteDistribution.sample(d1, rng=rng, k=len(case.get("gdraws", [])))
+        if isinstance(r, list):
+            return {"events": [enc(e) for e in r], "used": rng.used}
+        return {"event": enc(r), "used": rng.used}
+    res["kdraw"] = guarded(kd)
+    # events that collide must be refused by the constructors that promise distinct events
+    if case.get("neg"):
+        e1, e2 = dec(case["neg"][0]), dec(case["neg"][1])
+        res["neg"] = {"uniform": guarded(lambda: len(UniformDistribution([e1, e2]))),
+                      "table": guarded(lambda: len(build({"kind": "table", "events": case["neg"], "weights": ["1/2", "1/2"]})))}
     # scripted sampling: one generator per draw, so that every draw is compared on its own
     draws = []
     for kind, v in case["script"]:
